@@ -28,6 +28,66 @@ def run(ctx):
     _history(ctx)
     _onset(ctx)
     _providers(ctx)
+    _own_definition(ctx)
+
+
+# ---------------------------------------------------------------------------
+def _own_definition(ctx):
+    """A custom TZID is served from the VTIMEZONE of the calendar: what
+    TZP.cache_timezone_component stores for an id the provider does not know is
+    the zone *built from the component*, never one looked up by (part of) the
+    id.  TZP.cache_timezone_component, Timezone.to_tz, TZP.timezone and
+    TZP.create_timezone are interpreted (E7) on a stub provider."""
+    from ..absint import (Interp, Obj, ClassVal, AbsRaise, Unsupported, Native, NativeObj, Bound,
+                          Closure, TZ)
+    m = ctx.model
+    tzp_cls = m.cls("timezone.tzp.TZP")
+    f = m.lookup_method(tzp_cls, "cache_timezone_component")
+    if f is None:
+        raise AnalysisError("anchor vanished: TZP.cache_timezone_component")
+    KNOWN = {"Europe/Berlin", "UTC"}
+
+    class P(Interp):
+        def _native_obj_attr(self, o, name):
+            if o.name == "provider":
+                if name == "knows_timezone_id":
+                    return Native("knows", lambda i, a, k: self._str(a[0]) in KNOWN)
+                if name == "timezone":
+                    return Native("provider.timezone", lambda i, a, k:
+                                  TZ("zone", self._str(a[0]), "zoneinfo") if self._str(a[0]) in KNOWN else None)
+                if name == "create_timezone":
+                    return Native("provider.create_timezone", lambda i, a, k: ("built-from", a[0]))
+                raise Unsupported(f"provider.{name}")
+            return super()._native_obj_attr(o, name)
+
+    ids = ["Custom/Zone", "/example.org/20240101_1/Europe/Berlin", "/softwarestudio.org/Tzfile/Europe/Berlin",
+           "/Custom", "custom_Europe/Berlin"]
+    for tzid in ids:
+        it = P(m)
+        self_ = Obj(tzp_cls)
+        cache = {}
+        for nm in ("__provider", "_TZP__provider"):
+            self_.attrs[nm] = NativeObj("provider")
+        for nm in ("__tz_cache", "_TZP__tz_cache"):
+            self_.attrs[nm] = cache
+        comp = it.instantiate(m.cls("cal.Timezone"), [], {})
+        comp.items["TZID"] = tzid
+        label = f"VTIMEZONE TZID={tzid}"
+        try:
+            it.call(Bound(Closure(f), self_), [comp], {})
+        except AbsRaise as e:
+            ctx.fail("C12/OWN-DEFINITION", label, f"cache_timezone_component raises {e.cls_name}", f.loc())
+            continue
+        except Unsupported as e:
+            raise AnalysisError(f"cache_timezone_component leaves the abstract interface ({tzid}): {e}")
+        vals = list(cache.values())
+        good = len(vals) == 1 and isinstance(vals[0], tuple) and vals[0][0] == "built-from" \
+            and vals[0][1] is comp
+        ctx.check(good, "C12/OWN-DEFINITION", label,
+                  f"for the id {tzid!r} (unknown to the provider) the cache holds {vals!r}; it must hold "
+                  f"the zone built from this very VTIMEZONE (tzp.create_timezone(component)), so that "
+                  f"date-times referencing the TZID get the offsets the calendar defines",
+                  f.loc(), detail="built from the component")
 
 
 # ---------------------------------------------------------------------------
